@@ -142,13 +142,16 @@ def quat_ok(p, q):
     if not same_bits(p[:3], q[:3]):
         return False
     v = np.asarray(p[3:], dtype=np.float64)
-    n = float(np.linalg.norm(v))
+    with np.errstate(all="ignore"):
+        n = float(np.linalg.norm(v))
     if not math.isfinite(n) or n == 0.0:
         return True  # the property speaks about unit quaternions
     ref = v / n
-    if ref[3] < 0 or (ref[3] == 0 and False):
-        ref = -ref
-    return all(ulp_close(x, y, 4) or abs(x - y) <= 4e-16 for x, y in zip(ref, np.asarray(q[3:])))
+    got = np.asarray(q[3:], dtype=np.float64)
+    if not got[3] >= 0:  # w >= 0 after the import (-0.0 counts as zero)
+        return False
+    close = lambda r: all(ulp_close(x, y, 4) or abs(x - y) <= 4e-16 for x, y in zip(r, got))  # noqa: E731
+    return close(ref) if ref[3] > 0 else close(-ref) if ref[3] < 0 else (close(ref) or close(-ref))
 
 
 def expressible(g):
@@ -277,7 +280,8 @@ def check_cycle(g, label=""):
         if has_cross_terms_and_negative_w(g):
             return dict(match="quat-sign:odometry:cross-terms", kind="chi2 changed by the round trip (measurement quaternion with w<0 negated on import, information with translation-rotation cross terms)",
                         chi2_before=c1, chi2_after=c2, items=items, label=label), g2
-        unit = all(abs(float(np.linalg.norm(e.estimate[3:])) - 1) < 1e-12 for e in g._edges if type(e) is EdgeOdometry and isinstance(e.estimate, PoseSE3))
+        with np.errstate(all="ignore"):
+            unit = all(abs(float(np.linalg.norm(e.estimate[3:])) - 1) < 1e-12 for e in g._edges if type(e) is EdgeOdometry and isinstance(e.estimate, PoseSE3))
         if unit and abs(c1 - c2) > 1e-9 * max(abs(c1), 1e-300):
             return dict(match="g2o-roundtrip:chi2", kind="chi2 changed by the round trip", chi2_before=c1, chi2_after=c2, items=items, label=label), g2
     return None, g2
@@ -378,10 +382,6 @@ class Unjudged(Exception):
     """the file is not a well-formed file of the vocabulary: the property makes no statement"""
 
 
-def wrap_ref(t):
-    return float((np.float64(t) + np.pi) % (2 * np.pi) - np.pi)
-
-
 def ref_parse(text):
     """(params, vertices, edges, warnings) from the property's sentence; raises Unjudged for files it does not cover"""
     params, vertices, edges, warns = {}, [], [], []
@@ -405,8 +405,8 @@ def ref_parse(text):
         except ValueError:
             raise Unjudged("number")
         body, tri = vals[:n_val], vals[n_val:]
-        if kind == "se2" and not tag.startswith("EDGE_SE2_XY"):
-            body = body[:2] + [wrap_ref(body[2])]
+        if kind == "se2" and tag != "EDGE_SE2_XY" and not abs(body[2]) <= 1e6:
+            raise Unjudged("angle outside +-1e6 (float wrapping of such angles is C11's subject)")
         info = [[tri[min(i, j) * dim - min(i, j) * (min(i, j) - 1) // 2 + (max(i, j) - min(i, j))] for j in range(dim)] for i in range(dim)]
         if tag.startswith("VERTEX"):
             vertices.append((ids[0], kind, body))
@@ -432,6 +432,13 @@ def ref_parse(text):
     return params, vertices, edges, warns
 
 
+def body_ok(kind, obj, body):
+    """the object's entries are the file's numbers bitwise; an SE(2) angle may be wrapped (congruent, inside [-pi, pi])"""
+    if kind == "se2":
+        return len(obj) == 3 and same_bits(obj[:2], body[:2]) and angle_ok(obj[2], body[2]) and (not math.isfinite(obj[2]) or abs(obj[2]) <= math.pi)
+    return same_bits(obj, body)
+
+
 def compare_with_reference(g, recs, ref):
     """None if the real objects carry exactly the reference's numbers (bitwise), else a description"""
     params, vertices, edges, warns = ref
@@ -439,8 +446,8 @@ def compare_with_reference(g, recs, ref):
         return "log records"
     if [(v.id, H.KIND.get(type(v.pose))) for v in g._vertices] != [(i, k) for i, k, _ in vertices]:
         return "vertex ids / classes / order"
-    for v, (_, _, body) in zip(g._vertices, vertices):
-        if not same_bits(v.pose, body):
+    for v, (_, kind, body) in zip(g._vertices, vertices):
+        if not body_ok(kind, v.pose, body):
             return "vertex numbers"
     if len(g._edges) != len(edges):
         return "number of edges"
@@ -452,13 +459,13 @@ def compare_with_reference(g, recs, ref):
         if r[0] == "odo" and r[2] == "se3":
             if not quat_ok(np.array(r[3]), e.estimate):
                 return "SE(3) measurement"
-        elif not same_bits(e.estimate, r[3]):
+        elif not body_ok(r[2] if r[0] == "odo" else "point", e.estimate, r[3]):
             return "measurement"
         if r[0] == "lm":
-            if H.KIND.get(type(e.offset)) != r[5][0] or not same_bits(e.offset, r[5][1]) or e.offset_id != r[6]:
+            if H.KIND.get(type(e.offset)) != r[5][0] or not body_ok("point", e.offset, r[5][1]) or e.offset_id != r[6]:
                 return "landmark offset"
     got = {k: (H.KIND.get(type(p.value)), list(np.asarray(p.value))) for k, p in (g._g2o_params or {}).items()}
-    if list(got.keys()) != list(params.keys()) or any(got[k][0] != params[k][0] or not same_bits(got[k][1], params[k][1]) for k in got):
+    if list(got.keys()) != list(params.keys()) or any(got[k][0] != params[k][0] or not body_ok(got[k][0], got[k][1], params[k][1]) for k in got):
         return "parameters"
     return None
 
@@ -533,11 +540,10 @@ def replay(rep):
         print("replay file names a broken theorem/correspondence, not an input:", json.dumps(rep.get("no_longer_checks"))[:1500])
         return 1
     try:
-        if w.get("items") is not None and "file" not in w or w["match"].startswith(("quat-sign", "g2o-roundtrip", "g2o-landmark", "g2o-information", "g2o-inexpressible", "g2o-refused", "g2o-reimport", "g2o-written")):
-            g = rebuild(w["items"])
-            w2, _ = check_cycle(g, "replay")
-        else:
+        if w["match"].startswith(("g2o-import", "g2o-loaders")) or w.get("items") is None:
             w2, _ = check_file(w["file"], "replay")
+        else:
+            w2, _ = check_cycle(rebuild(w["items"]), "replay")
     finally:
         _cleanup()
     if w2 and w2["match"] == w["match"]:
